@@ -138,7 +138,38 @@ class _Fold(ast.NodeTransformer):
                 banned.add(n.target.id)
             elif isinstance(n, ast.NamedExpr) and isinstance(n.target, ast.Name):
                 banned.add(n.target.id)
+        # (a bare declaration `x: T` binds nothing)
+        for n in _own_nodes(fn):
+            if isinstance(n, ast.AnnAssign) and n.value is None and isinstance(n.target, ast.Name):
+                stores[n.target.id] = stores.get(n.target.id, 0) - 1
         cands = {nm for nm, c in stores.items() if c == 1 and loads.get(nm, 0) == 1 and nm not in banned}
+        # a local bound k times and read k times, every binding immediately followed by the statement that reads it (e.g. after
+        # a trailing statement was sunk into the arms of an if): folded pair by pair, all or none
+        multi = {nm for nm, c in stores.items() if c > 1 and loads.get(nm, 0) == c and nm not in banned}
+        if multi:
+            pairs: Dict[str, int] = {}
+
+            def scan(node: ast.AST) -> None:
+                for fld in ("body", "orelse", "finalbody"):
+                    b = getattr(node, fld, None)
+                    if isinstance(b, list) and b and isinstance(b[0], ast.stmt):
+                        for i, st in enumerate(b):
+                            if isinstance(st, ast.Assign) and len(st.targets) == 1 and isinstance(st.targets[0], ast.Name) and st.targets[0].id in multi \
+                                    and i + 1 < len(b) and not any(isinstance(x, (ast.Yield, ast.YieldFrom, ast.Lambda, ast.NamedExpr)) for x in ast.walk(st.value)):
+                                nm = st.targets[0].id
+                                for parent, fld2, idx in _slots(b[i + 1]):
+                                    cur = getattr(parent, fld2) if idx is None else getattr(parent, fld2)[idx]
+                                    if isinstance(cur, ast.Name) and cur.id == nm:
+                                        pairs[nm] = pairs.get(nm, 0) + 1
+                                        break
+                            if not isinstance(st, _FUNCS + (ast.ClassDef,)):
+                                scan(st)
+                for h in getattr(node, "handlers", []) or []:
+                    scan(h)
+
+            scan(fn)
+            cands |= {nm for nm in multi if pairs.get(nm, 0) == stores[nm]}
+        multi_ok = set(cands) & multi if multi else set()
         if not cands:
             return
 
@@ -175,7 +206,8 @@ class _Fold(ast.NodeTransformer):
                     else:
                         getattr(parent, fld)[idx] = val
                     del body[i]
-                    cands.discard(name)
+                    if name not in multi_ok:
+                        cands.discard(name)
                     self.folded += 1
                     changed = True
                     break
@@ -427,41 +459,81 @@ class _LoopShapes(ast.NodeTransformer):
         return node
 
 
-class _IfAssign(ast.NodeTransformer):
-    """`if C: x = A` / `else: x = B` (each arm exactly one plain assignment to the same local name) reads `x = A if C else B`:
-    C is evaluated, then exactly one of A and B, then x is bound - the same steps in the same order.  Together with the folding of
-    single-use temporaries this makes a reply computed by an if/else read like the conditional expression it is."""
+class _SinkTail:
+    """`if C: ...; x = A` / `else: ...; x = B` followed by ONE simple statement S that is the only reader of the local x: S is moved
+    (copied) to the end of every arm.  Each path then runs exactly the statements it ran before, in the same order; the arms keep
+    their own `x = ...; S(x)` pair, which the folding pass turns into `S(A)` / `S(B)` where evaluation order allows.  A reply, an
+    exception or a return value chosen by an if/elif/else chain thereby stays tied to the path that chose it."""
 
     def __init__(self):
         self.rewritten = 0
 
-    @staticmethod
-    def _single(body):
-        if len(body) != 1:
-            return None
-        st = body[0]
-        if isinstance(st, ast.Assign) and len(st.targets) == 1 and isinstance(st.targets[0], ast.Name):
-            return st.targets[0].id, st.value
-        if isinstance(st, ast.If):
-            return None
-        return None
+    def visit(self, tree: ast.AST) -> None:
+        for fn in [n for n in ast.walk(tree) if isinstance(n, _FUNCS)]:
+            loads: Dict[str, int] = {}
+            stores: Dict[str, int] = {}
+            for n in ast.walk(fn):
+                if isinstance(n, ast.Name):
+                    d = loads if isinstance(n.ctx, ast.Load) else stores
+                    d[n.id] = d.get(n.id, 0) + 1
+            params = {a.arg for a in fn.args.posonlyargs + fn.args.args + fn.args.kwonlyargs}
+            self._blocks(fn, loads, params)
 
-    def visit_If(self, node: ast.If):
-        self.generic_visit(node)
-        a = self._single(node.body)
-        b = self._single(node.orelse)
-        if b is None and len(node.orelse) == 1 and isinstance(node.orelse[0], ast.Assign) is False:
-            return node
-        if a is None or b is None or a[0] != b[0]:
-            return node
-        if any(isinstance(x, (ast.Await, ast.Yield, ast.YieldFrom, ast.NamedExpr)) for v in (a[1], b[1], node.test) for x in ast.walk(v)):
-            return node  # (awaits keep their own statement: suspension points are judged per statement)
-        self.rewritten += 1
-        new = ast.Assign(targets=[ast.Name(id=a[0], ctx=ast.Store())], value=ast.IfExp(test=node.test, body=a[1], orelse=b[1]))
-        ast.copy_location(new, node)
-        ast.copy_location(new.targets[0], node.body[0].targets[0])
-        ast.copy_location(new.value, node)
-        return new
+    def _arms(self, node: ast.If, name: Optional[str]):
+        """leaf blocks of the if/elif/else tree when every leaf ends in `name = <expr>` (name discovered at the first leaf)"""
+        out = []
+        for blk in (node.body, node.orelse):
+            if not blk:
+                return None, None
+            if len(blk) == 1 and isinstance(blk[0], ast.If) and blk is node.orelse:
+                sub, name = self._arms(blk[0], name)
+                if sub is None:
+                    return None, None
+                out += sub
+                continue
+            last = blk[-1]
+            if not (isinstance(last, ast.Assign) and len(last.targets) == 1 and isinstance(last.targets[0], ast.Name)):
+                return None, None
+            if name is None:
+                name = last.targets[0].id
+            if last.targets[0].id != name:
+                return None, None
+            out.append(blk)
+        return out, name
+
+    def _blocks(self, node: ast.AST, loads, params) -> None:
+        for fld in ("body", "orelse", "finalbody"):
+            blk = getattr(node, fld, None)
+            if isinstance(blk, list) and blk and isinstance(blk[0], ast.stmt):
+                self._block(blk, loads, params)
+                for st in blk:
+                    if not isinstance(st, _FUNCS + (ast.ClassDef,)) or st is node:
+                        self._blocks(st, loads, params)
+        for h in getattr(node, "handlers", []) or []:
+            self._blocks(h, loads, params)
+        for c in getattr(node, "cases", []) or []:
+            self._blocks(c, loads, params)
+
+    def _block(self, blk: List[ast.stmt], loads, params) -> None:
+        import copy
+        i = 0
+        while i + 1 < len(blk):
+            st, nxt = blk[i], blk[i + 1]
+            i += 1
+            if not isinstance(st, ast.If) or not isinstance(nxt, (ast.Expr, ast.Return, ast.Raise, ast.Assign, ast.AnnAssign)):
+                continue
+            arms, name = self._arms(st, None)
+            if not arms or name is None or name in params or loads.get(name, 0) != 1:
+                continue
+            if sum(1 for x in ast.walk(nxt) if isinstance(x, ast.Name) and x.id == name and isinstance(x.ctx, ast.Load)) != 1:
+                continue
+            if any(isinstance(x, ast.Name) and x.id == name and not isinstance(x.ctx, ast.Load) for x in ast.walk(nxt)):
+                continue
+            for arm in arms:
+                arm.append(copy.deepcopy(nxt))
+            del blk[i]
+            self.rewritten += 1
+            i -= 1
 
 
 class _BoundAliases:
@@ -550,9 +622,9 @@ def _clone(e: ast.AST) -> ast.AST:
 def normalise(tree: ast.Module) -> ast.Module:
     ls = _LoopShapes()
     ls.visit(tree)
-    ia = _IfAssign()
-    ia.visit(tree)
-    tree._tpsa_if_assign = ia.rewritten  # type: ignore[attr-defined]
+    sk = _SinkTail()
+    sk.visit(tree)
+    tree._tpsa_sunk = sk.rewritten  # type: ignore[attr-defined]
     ba = _BoundAliases()
     ba.visit(tree)
     tree._tpsa_bound_aliases = ba.inlined  # type: ignore[attr-defined]
